@@ -821,7 +821,7 @@ def check_memory_primitives(ctx):
         cfg = F.CFG(f)
         mn, mx = cfg.count_on_paths(lambda st: F.events_in(st, lambda n: isinstance(n, ast.Call) and A.norm(n.func) == "self._arrays.init_new_array"))
         sets = [n for n in ast.walk(f) if isinstance(n, ast.Call) and A.norm(n.func) == "self._arrays._set_array"]
-        ok = (mn, mx) == (1, 1) and len(sets) == 1 and [A.norm(a) for a in sets[0].args] == ["address", "new_array"] and any(pol and A.norm(t) == "new_arrayisnotNone" for t, pol in G.enclosing_tests(f, sets[0]))
+        ok = (mn, mx) == (1, 1) and len(sets) == 1 and [A.norm(a) for a in sets[0].args] == ["address", "new_array"] and any((not pol) and A.norm(t) == "new_arrayisNone" for t, pol in G.path_conditions(f, sets[0]))
         ctx.check("C04.M", "SharedMemory.init_new_array:declares-then-fills", ok, "SharedMemory.init_new_array does not declare the array once and copy the returned array into it when one is given", sh.loc(f))
     su = m.functions.get("setup_registers")
     ok = False
